@@ -22,6 +22,12 @@ pub broadcast proof fn axiom_literal_ext(a: Literal, b: Literal)
     ensures (#[trigger] a.var() == #[trigger] b.var() && a.neg() == b.neg()) ==> a == b,
 { admit(); }
 
+/// Kani lit_new_roundtrip: Literal::new is total on the encodable domain, so every (variable, polarity) has a literal
+pub proof fn axiom_literal_exists(v: nat, neg: bool)
+    requires v < MAX_VAR,
+    ensures exists|l: Literal| #[trigger] l.var() == v && l.neg() == neg,
+{ admit(); }
+
 impl vstd::std_specs::cmp::PartialEqSpecImpl for Literal {
     open spec fn obeys_eq_spec() -> bool { true }
     open spec fn eq_spec(&self, other: &Literal) -> bool { self.var() == other.var() && self.neg() == other.neg() }
